@@ -116,6 +116,7 @@ def check_one_join(A, B, apA, apB, kw, cls, where, fails, determinism=True):
     a1r = next(A.connected_atoms(a1))
     a2r = next(B.connected_atoms(a2))
     snapA, snapB = chem.snapshot(A), chem.snapshot(B)
+    par0 = {"A": ([x.parent for x in A.atoms], [b.parent for b in A.bonds]), "B": ([x.parent for x in B.atoms], [b.parent for b in B.bonds])}
     np.random.seed(12345)
     try:
         P = cls.join(A, B, a1, a2, **kw)
@@ -225,7 +226,7 @@ def check_one_join(A, B, apA, apB, kw, cls, where, fails, determinism=True):
         d = chem.snap_diff(snap, chem.snapshot(src))
         if d:
             fails.append(Fail(f"source-{nm}-altered", f"{where}: {d}"))
-        if any(x.parent is not src for x in src.atoms) or any(b.parent is not src for b in src.bonds):
+        if any(x.parent is not p_ for x, p_ in zip(src.atoms, par0[nm][0])) or any(b.parent is not p_ for b, p_ in zip(src.bonds, par0[nm][1])):
             fails.append(Fail(f"source-{nm}-parents-changed", where))
     shared = (set(containers(A)) | set(containers(B))) & set(containers(P))
     if shared:
@@ -274,7 +275,16 @@ def check_join(r) -> list[Fail]:
         A, apsA = build_fragment(dict(r["A"], aps=r["A"]["aps"][:1]), cls, "a")
         B, apsB = build_fragment(dict(r["B"], aps=r["B"]["aps"][:1]), cls, "b")
     fails: list[Fail] = []
-    check_one_join(A, B, apsA[0], apsB[0], _kw(r), cls, f"join[{deg or 'general'}]", fails)
+    wrapped = None
+    if r.get("wrapped"):
+        # some atoms of A (the attachment point among them) were handed, uncopied, to another container before the join
+        # (e.g. ml.Promolecule(A.attachment_points).formula): that re-parents the Atom objects, A itself is unchanged
+        import gc
+        wrapped = ml.Promolecule([A.atoms[apsA[0]]] + [A.atoms[i] for i in range(min(2, A.n_atoms - 1))])
+        if r["wrapped"] == 2:
+            wrapped = None
+            gc.collect()      # ... and that container is gone again: the atoms' parent reference is dead
+    check_one_join(A, B, apsA[0], apsB[0], _kw(r), cls, f"join[{deg or 'general'}]" + ["", " (A's atoms also sit in a live foreign container)", " (A's atoms carry a dead parent reference)"][r.get("wrapped", 0)], fails)
     if not fails and r.get("again") and not deg:
         # the same fragment objects, edited in place by their owner, joined again: the product is built from their current state
         A.translate([0.4, -1.1, 2.3])
@@ -321,7 +331,7 @@ def strat_join(tier):
         "charge": st.one_of(st.none(), st.none(), st.just(0), st.integers(-3, 3)), "mult": st.one_of(st.none(), st.integers(1, 5)),
         "name": st.one_of(st.none(), st.just("product")),
         "btype": st.one_of(st.none(), st.sampled_from([1, 2, 3, 20, 99])), "bstereo": st.sampled_from([0, 10, 11]), "bforder": st.sampled_from([1.0, 1.5, 2.0]),
-        "degenerate": st.sampled_from([None, None, None, "parallel", "antiparallel", "axis"]), "again": st.booleans(),
+        "degenerate": st.sampled_from([None, None, None, "parallel", "antiparallel", "axis"]), "again": st.booleans(), "wrapped": st.sampled_from([0, 0, 1, 2]),
     })
 
 
